@@ -265,7 +265,7 @@ impl DamerauLevenshtein {
     pub fn distance(&mut self, word1: &WordView, word2: &WordView) -> (ret: f64)
         // requires only wf of the pre-state: arbitrary leftovers of earlier calls (C19 "after any sequence of earlier calls")
         requires old(self).wf(), word1.wf(), word2.wf(),
-        ensures final(self).wf(),
+        ensures final(self).wf(), // [C01 ALL]
             final(self).dists.size >= word1.vchars().len() + 2,
             final(self).dists.size >= word2.vchars().len() + 2,
     {
